@@ -484,6 +484,10 @@ size_t ZSTD_seekable_initAdvanced(ZSTD_seekable* zs, ZSTD_seekable_customFile sr
 size_t ZSTD_seekable_decompress(ZSTD_seekable* zs, void* dst, size_t len, unsigned long long offset)
 {
     unsigned long long const eos = zs->seekTable.entries[zs->seekTable.tableLen].dOffset;
+    if (offset > eos) {
+        /* nothing can be read beyond the end of the content : (eos - offset) must not wrap */
+        return ERROR(frameIndex_tooLarge);
+    }
     if (offset + len > eos) {
         len = eos - offset;
     }
